@@ -338,7 +338,7 @@ theorem parseVModel_DirOk (v : Node) (c : Bool) (arg : Option Node) (r : List St
     have : arrayElems nEmptyIdent = none := by decide
     simp only [this]
     cases c <;> cases arg <;> simp_all [DirOk, optOk_transformModifiers, Option.isNone]
-      <;> (try split) <;> (try simp_all [optOk_transformModifiers])
+      <;> (try split) <;> (try simp_all [optOk_transformModifiers]) <;> (try split) <;> (try simp_all [optOk_transformModifiers])
   | some e =>
     have hne := containerExpr_NoJsx v e hv hce
     simp only
@@ -346,8 +346,8 @@ theorem parseVModel_DirOk (v : Node) (c : Bool) (arg : Option Node) (r : List St
     | none =>
       simp only [DirOk, optOk_transformModifiers, hne, Bool.and_true]
       cases arg with
-      | none => split <;> simp_all
-      | some a => split <;> simp_all
+      | none => split <;> simp_all <;> (try split) <;> (try simp_all)
+      | some a => split <;> simp_all <;> (try split) <;> (try simp_all)
     | some elems =>
       have hels := arrayElems_NoJsx e elems hne hae
       simp only
@@ -358,6 +358,7 @@ theorem parseVModel_DirOk (v : Node) (c : Bool) (arg : Option Node) (r : List St
         (try (cases hp2 : (plainElem elems 2).bind arrayElems)) <;> (try simp only []) <;>
         cases c <;> cases arg <;>
         (try simp_all [DirOk, optOk_transformModifiers, Option.isNone]) <;> (try split) <;> (try simp_all [optOk_transformModifiers])
+        <;> (try split) <;> (try simp_all [optOk_transformModifiers])
 
 
 theorem parseVSlots_DirOk (v : Node) (hv : ValOk v = true) : DirOk (parseVSlots v) = true := by
